@@ -152,13 +152,11 @@ example : MapEnv { ty := some (.map .string interfaceType), entries := [("a", so
 
 /-- **Accepted ⇒ callable (function names, struct environments).**  If the checker accepts `name(…)`
 (the table holds a callable entry) then `FetchFn` finds something `reflect` can call: the method, or the
-exported field holding a function — directly, behind pointers (`*func`, since 547c103), or in an interface.
-Still excluded: a member of type pointer-to-interface (`*interface{}`), where `FetchFn` stops at the
-interface value — `ptr_iface_func_witness`. -/
+exported field holding a function — directly, behind pointers (`*func`, since 547c103), in an interface, or in
+an interface behind pointers (`*interface{}`, since 72281b1). -/
 theorem accepted_call_resolves {e : Env} {t dd : Ty} (h : StructEnv e t dd) (σ : Table → Table)
     (hσ : IsOrder σ) {tbl : Table} (ht : createTypesTable .asIs σ e = some tbl)
-    (n : String) (fn : Ty) (m : Bool) (hacc : funcTarget tbl n = some (fn, m))
-    (hnpi : ∀ g ty, tbl.get? n = some g → g.ty = some ty → ¬ (ty.isPtr = true ∧ ty.deref.kind = .iface)) :
+    (n : String) (fn : Ty) (m : Bool) (hacc : funcTarget tbl n = some (fn, m)) :
     ∃ ft, fetchFnTy .asIs t e.entries n = some (ft, m) := by
   unfold funcTarget at hacc
   cases hg : tbl.get? n with
@@ -198,7 +196,6 @@ theorem accepted_call_resolves {e : Env} {t dd : Ty} (h : StructEnv e t dd) (σ 
       | false =>
         obtain ⟨f, hr, hx, hgf⟩ := fieldsAt_repaired_some h.deref hentry.symm hamb
         have hgty : g.ty = some f.ty := by rw [hgf]
-        have hp := hnpi g f.ty hg hgty
         rw [hgty] at hfn
         have hmf : g.method = false := by rw [hgf]
         obtain ⟨fs, hc⟩ := Ty.kind_struct_iff.1 h.hkind
@@ -208,13 +205,10 @@ theorem accepted_call_resolves {e : Env} {t dd : Ty} (h : StructEnv e t dd) (σ 
           by_cases hk0 : f.ty.kind = .func
           · exact ⟨f.ty, by simp [hk0]⟩
           · exact ⟨f.ty, by simp [hk0, hk, NDefects.asIs]⟩
-        · -- an interface: not behind a pointer, by hypothesis
-          have hnp : f.ty.isPtr = false := by
-            cases hpp : f.ty.isPtr with
-            | false => rfl
-            | true => exact absurd ⟨hpp, hk⟩ hp
-          have hk0 : f.ty.kind = .iface := by rw [Ty.deref_of_not_isPtr hnp] at hk; exact hk
-          exact ⟨f.ty, by simp [hk0, NDefects.asIs]⟩
+        · -- an interface, possibly behind pointers
+          by_cases hk0 : f.ty.kind = .func
+          · exact ⟨f.ty, by simp [hk0]⟩
+          · exact ⟨f.ty, by simp [hk0, hk, NDefects.asIs]⟩
 
 /-- **The checker's member type is Go's**: on a struct (through any number of pointers) the asIs
 `fieldType` accepts exactly the exported fields `reflect.FieldByName` resolves, with their types. -/
@@ -498,13 +492,14 @@ theorem ptr_func_witness :
      fetchFnTy .asIs (.map .string interfaceType) e.entries "pf" = some (.ptr fnIntInt, false)) := by
   decide +kernel
 
-/-- `c16:accepted-not-resolvable:pointer-to-interface-holding-func` (known, the current code): `PIFn(1)`
-with `PIFn *interface{}` is accepted — `isFuncType` dereferences to the interface — but `FetchFn` stops at the
-interface value; this is the hypothesis `hnpi` of `accepted_call_resolves`. -/
+/-- `c16:accepted-not-resolvable:pointer-to-interface-holding-func` (fixed by 72281b1): `PIFn(1)` with
+`PIFn *interface{}` is accepted — `isFuncType` dereferences to the interface — but `FetchFn` stopped at the
+interface value (the flag `ptrIfaceFuncNotFetched`); the current code follows it. -/
 theorem ptr_iface_func_witness :
     funcTarget (tableOf .asIs EnvPtrFn) "PIFn" = some (interfaceType, false) ∧
-    fetchFnTy .asIs EnvPtrFn [] "PIFn" = none ∧
-    fetchFnTy .repaired EnvPtrFn [] "PIFn" = some (.ptr interfaceType, false) := by
+    fetchFnTy { NDefects.asIs with ptrIfaceFuncNotFetched := true } EnvPtrFn [] "PIFn" = none ∧
+    fetchFnTy .asWas EnvPtrFn [] "PIFn" = none ∧
+    fetchFnTy .asIs EnvPtrFn [] "PIFn" = some (.ptr interfaceType, false) := by
   decide +kernel
 
 /-- `c16:func-in-typed-map-not-callable`, `c16:defined-string-key-map-env`: map environments. -/
